@@ -348,6 +348,13 @@ class SynthObject(gpp.UGenParameter, metaclass=MetaSynthObject):
                 arg_name = self._arg_name_for_input_at(i)
                 if arg_name is None: arg_name = i
                 return f'arg: {arg_name} has bad input: {input}'
+            if isinstance(input, UGen)\
+            and input._synthdef is not self._synthdef:
+                arg_name = self._arg_name_for_input_at(i)
+                if arg_name is None: arg_name = i
+                return (
+                    f'arg: {arg_name} is a unit of another '
+                    f'SynthDef: {input}')
         return None
 
     def _check_n_inputs(self, n):
